@@ -435,7 +435,7 @@ func TestVerif_C22(t *testing.T) {
 	r := kit.Start(t, "C22", "hist")
 	defer r.Finish()
 	depth := r.Pick(3, 4)
-	r.Rule(fmt.Sprintf("every history of length <=%d"+map[bool]string{true: "", false: " (quick tier: except those that begin with a write - the set-up already is one - and those without any load, boot or invalid load)"}[r.Thorough()]+" over {write, load WAL-mode file, load DELETE-mode file, load SQL text (as /db/load does), invalid loads (random bytes, garbage text, empty data; through the /db/load dispatch, Store.Load and boot), boot (single node), snapshot with log truncation on every node, restart every node, join a second real Store (once)} on a fresh real Store, plus %d directed histories of length 5-7, each followed by one more write and a closing sequence (a database truncated in its second page given to Store.Load and, on a single node, to boot - in the other order in 4 extra cases - then one more write); after every step the joined node is awaited (applied index >= leader's last command, limit %v) and the logical dump of every node is compared with the reference model; invalid loads must be refused and change nothing. Histories are run as the leaves of the tree (every shorter history is a prefix of a leaf and is checked there). distinct = (history, per-step observation)", depth, len(c22Directed), c22Converge))
+	r.Rule(fmt.Sprintf("every history of length <=%d"+map[bool]string{true: "", false: " (quick tier: of the longest ones only those that begin with a load, boot, snapshot or join, contain a load, boot or invalid load and no SQL-text load - the real handler is part http; all histories one step shorter are covered)"}[r.Thorough()]+" over {write, load WAL-mode file, load DELETE-mode file, load SQL text (as /db/load does), invalid loads (random bytes, garbage text, empty data; through the /db/load dispatch, Store.Load and boot), boot (single node), snapshot with log truncation on every node, restart every node, join a second real Store (once)} on a fresh real Store, plus %d directed histories of length 5-7, each followed by one more write and a closing sequence (a database truncated in its second page given to Store.Load and, on a single node, to boot - in the other order in 4 extra cases - then one more write); after every step the joined node is awaited (applied index >= leader's last command, limit %v) and the logical dump of every node is compared with the reference model; invalid loads must be refused and change nothing. Histories are run as the leaves of the tree (every shorter history is a prefix of a leaf and is checked there). distinct = (history, per-step observation)", depth, len(c22Directed), c22Converge))
 	r.Assume("the joining node is a read-only (non-voting) node, so the first node stays a one-voter leader whatever the machine load; replication to a non-voter uses the same log/snapshot-install path as to a voter")
 	r.Assume("operations are sequential; loads racing with writes or with snapshots are not explored; chunked loads are C28")
 	r.Note("SQL text is the real dump of a database with DROP TABLE IF EXISTS for its tables put first, so that the text alone determines the resulting database")
@@ -451,14 +451,30 @@ func TestVerif_C22(t *testing.T) {
 		}
 		cases = []c22Case{c}
 	} else {
-		for _, h := range c22Leaves(depth) {
-			// quick tier: leave out the histories that begin with a write (the set-up is
-			// already one: schema and counter row through Execute) and those without any
-			// load, boot or invalid load (nothing of this property to observe in them)
-			if !r.Thorough() && (h[0] == 'W' || !strings.ContainsAny(h, "ADTBI")) {
-				continue
+		if r.Thorough() {
+			for _, h := range c22Leaves(depth) {
+				cases = append(cases, c22Case{History: h})
 			}
-			cases = append(cases, c22Case{History: h})
+		} else {
+			// Quick tier. Of the histories of the full length it runs those that begin with
+			// a load, a boot, a snapshot or the join, do not contain the SQL-text load (the
+			// real /db/load handler runs in part "http"; T stays in the shorter and in the
+			// directed histories) and contain a load, boot or invalid load. Left out: a
+			// leading write (the set-up already is one), a leading restart of the node that
+			// was just set up, a leading invalid load. Every history one step shorter that is
+			// not a prefix of those is run as well, so all shorter histories are covered.
+			covered := map[string]bool{}
+			for _, h := range c22Leaves(depth) {
+				if strings.ContainsRune("ADBSJ", rune(h[0])) && !strings.Contains(h, "T") && strings.ContainsAny(h, "ADBI") {
+					cases = append(cases, c22Case{History: h})
+					covered[h[:depth-1]] = true
+				}
+			}
+			for _, h := range c22Leaves(depth - 1) {
+				if !covered[h] {
+					cases = append(cases, c22Case{History: h})
+				}
+			}
 		}
 		for _, h := range c22Directed {
 			cases = append(cases, c22Case{History: h})
@@ -822,8 +838,10 @@ func c22Run(t *testing.T, r *kit.Run, cs c22Case, in *c22Inputs, base string) ([
 		// transient refusal, so the request is repeated.
 		// So is raft's "wait until the configuration entry ... has been applied" right
 		// after the join (its FSM goroutine has not yet passed the membership entry).
-		for deadline := time.Now().Add(c22Converge); err != nil && time.Now().Before(deadline) &&
-			(strings.Contains(err.Error(), "CAS conflict") || strings.Contains(err.Error(), "wait until the configuration entry")); {
+		// (asked again only for a moment: after a restart the refusal lasts until the next command)
+		start := time.Now()
+		for err != nil && ((strings.Contains(err.Error(), "CAS conflict") && time.Since(start) < c22Converge) ||
+			(strings.Contains(err.Error(), "wait until the configuration entry") && time.Since(start) < 2*time.Second)) {
 			time.Sleep(10 * time.Millisecond)
 			err = n.s.Snapshot(1)
 		}
